@@ -1117,6 +1117,7 @@ class RunSpec(Spec):
             return [Res("val", None, st)]
 
         init_model.modifies = ["is_live", "list#len", "list#el", "dict#dom", "dict#val", "live"]
+        init_model.ghost_modifies = GHOSTS
 
         def popleft(ex, st, args, kw):
             """
@@ -1146,6 +1147,7 @@ class RunSpec(Spec):
             return out
 
         popleft.modifies = ["list#len", "list#el"]
+        popleft.ghost_modifies = GHOSTS
 
         def visit_dispatch(ex, st, args, kw):
             """analysis.visit(point): the liveness analysis -> contract of SparseBackwardDataFlowAnalysis.visit; any other analysis -> ASSUMED frame."""
@@ -1173,6 +1175,7 @@ class RunSpec(Spec):
             return out
 
         visit_dispatch.modifies = VisitOperationSpec.modifies
+        visit_dispatch.ghost_modifies = GHOSTS
         self.calls = {"analysis.initialize": Builtin(init_model, "ASSUMED: the initialisation phase establishes the loop invariant (bounded stand-in only)"),
                       ".popleft": Builtin(popleft, "deque.popleft as removal of an ARBITRARY element (weaker than CPython: covers every worklist order)"),
                       "analysis.visit": Builtin(visit_dispatch, "liveness analysis: discharged contract of visit; other analyses: ASSUMED frame")}
